@@ -1236,6 +1236,12 @@ impl CodegenContext {
         &mut self,
         f: F,
     ) -> CoreResult<()> {
+        // Already emitting into the dummy segment (e.g. an untaken branch inside an untaken branch)? Then keep using
+        // it, since removing it when the inner call is done would pull it out from under the outer one.
+        if self.current_segment.as_ref().map(|s| s.as_str()) == Some("$dummy") {
+            return f(self);
+        }
+
         let prev_segment = self.current_segment.clone();
         self.segments
             .insert("$dummy".into(), Segment::new(SegmentOptions::default()));
